@@ -287,6 +287,19 @@ func newVfGW(x *vfExec, cfg *vfGWCfg, msgs map[string]vfMsgSpec, extra ...Option
 	if cfg.QueueSize > 0 {
 		opts = append(opts, WithPeerOutboundQueueSize(cfg.QueueSize))
 	}
+	for _, pc := range cfg.Peers {
+		if pc.Proto == "acme" && cfg.Router == "gossip" {
+			// a custom protocol list: the custom ID first, then the defaults; the custom ID has every feature
+			opts = append(opts, WithGossipSubProtocols(append([]protocol.ID{vfAcmeProto}, GossipSubDefaultProtocols...),
+				func(f GossipSubFeature, p protocol.ID) bool {
+					if p == vfAcmeProto {
+						return true
+					}
+					return GossipSubDefaultFeatures(f, p)
+				}))
+			break
+		}
+	}
 	if cfg.Extra["subfilter"] == "limit2" {
 		// the scenario's own topics are allowed; an RPC may carry up to two subscription entries
 		opts = append(opts, WithSubscriptionFilter(WrapLimitSubscriptionFilter(NewAllowlistSubscriptionFilter(cfg.Topics...), 2)))
